@@ -373,3 +373,104 @@ func TestVerifConcNewFields(t *testing.T) {
 	}
 	vtrace.Done("TestVerifConcNewFields", map[string]interface{}{"rounds": rounds, "writes": writes})
 }
+
+// A delete of ONE series of a measurement racing writers that create OTHER series of the same measurement
+// ("deletes of other series"): when the deleted series was the measurement's only one, the engine decides that
+// the measurement is empty and drops it from the index - that decision races the creation of the sibling series.
+// Every acknowledged sibling write must stay readable (and listed), also after a reopen.
+func TestVerifConcSiblingSeries(t *testing.T) {
+	rounds := vtrace.EnvInt("VERIF_ROUNDS", 8)
+	perRound := vtrace.EnvInt("VERIF_PERROUND", 40)
+	writes := 0
+	for r := 0; r < rounds; r++ {
+		index := []string{"inmem", "tsi1"}[r%2]
+		s := MustOpenStore(index)
+		if err := s.CreateShard("db0", "rp0", 1, true); err != nil {
+			t.Fatal(err)
+		}
+		const nW = 3
+		type ack struct {
+			m  string
+			ok [nW]bool
+		}
+		var acks []ack
+		rep := map[string]interface{}{"test": "SIBLING", "round": r, "index": index}
+		bad := false
+		verify := func(when string) {
+			for _, a := range acks {
+				times, _, err := vcReadInts(s.Shard(1), a.m)
+				got := map[int64]bool{}
+				for _, x := range times {
+					got[x] = true
+				}
+				for w := 0; w < nW; w++ {
+					if a.ok[w] && (err != nil || !got[int64(100+w)]) {
+						vtrace.Mismatch("conc:sibling:acked-unreadable:"+when, fmt.Sprintf("round %d (%s) %s: the write of series %s,host=new%d was acknowledged while the measurement's only other series was being deleted, but a read of the measurement returns times %v (err=%v)", r, index, when, a.m, w, times, err), rep)
+						bad = true
+						return
+					}
+				}
+			}
+		}
+		for i := 0; i < perRound && !bad; i++ {
+			m := fmt.Sprintf("sib%d", i)
+			s.MustWriteToShardString(1, fmt.Sprintf("%s,host=old v=1i 1", m))
+			var wg sync.WaitGroup
+			start := make(chan struct{})
+			a := ack{m: m}
+			var okw [nW]int32
+			var delErr atomic.Value
+			wg.Add(1)
+			go func() {
+				defer wg.Done()
+				<-start
+				if err := s.DeleteSeries("db0", []influxql.Source{&influxql.Measurement{Name: m}}, influxql.MustParseExpr(`host = 'old'`)); err != nil {
+					delErr.Store(err.Error())
+				}
+			}()
+			for w := 0; w < nW; w++ {
+				wg.Add(1)
+				go func(w int) {
+					defer wg.Done()
+					<-start
+					for spin := 0; spin < w*50; spin++ { // stagger the writers a little: no correctness role
+						_ = spin
+					}
+					pt := models.MustNewPoint(m, models.NewTags(map[string]string{"host": fmt.Sprintf("new%d", w)}), models.Fields{"v": int64(w + 1)}, time.Unix(0, int64(100+w)))
+					if err := s.WriteToShard(1, []models.Point{pt}); err == nil {
+						atomic.StoreInt32(&okw[w], 1)
+					}
+				}(w)
+			}
+			close(start)
+			wg.Wait()
+			if e := delErr.Load(); e != nil {
+				vtrace.Mismatch("conc:sibling:delete-error", fmt.Sprintf("round %d (%s): DeleteSeries(%s, host='old') failed: %v", r, index, m, e), rep)
+				bad = true
+				break
+			}
+			for w := 0; w < nW; w++ {
+				a.ok[w] = atomic.LoadInt32(&okw[w]) == 1
+				if a.ok[w] {
+					writes++
+				}
+			}
+			acks = append(acks, a)
+			if i%8 == 7 {
+				verify("after-race")
+			}
+		}
+		if !bad {
+			verify("after-race")
+		}
+		if !bad {
+			if err := s.Reopen(); err != nil {
+				vtrace.Mismatch("conc:sibling:reopen-error", err.Error(), rep)
+			} else {
+				verify("after-reopen")
+			}
+		}
+		s.Close()
+	}
+	vtrace.Done("TestVerifConcSiblingSeries", map[string]interface{}{"rounds": rounds, "writes": writes})
+}
